@@ -187,7 +187,10 @@ func c11Ops() []concOp {
 		{"ToCSV", false, func(q qframe.QFrame, y func()) string { var b bytes.Buffer; _ = q.ToCSV(&b); return b.String() }},
 		{"ToJSON", false, func(q qframe.QFrame, y func()) string { var b bytes.Buffer; _ = q.ToJSON(&b); return b.String() }},
 		{"String", false, func(q qframe.QFrame, y func()) string { return q.String() }},
-		{"Equals", false, func(q qframe.QFrame, y func()) string { a, b := q.Equals(q.Sort(qframe.Order{Column: "i"})); return fmt.Sprint(a, b) }},
+		{"Equals", false, func(q qframe.QFrame, y func()) string {
+			a, b := q.Equals(q.Sort(qframe.Order{Column: "i"}))
+			return fmt.Sprint(a, b)
+		}},
 		{"Views", false, func(q qframe.QFrame, y func()) string {
 			return digestFrame(q) + fmt.Sprint(q.MustIntView("i").Slice(), q.MustStringView("s").Len())
 		}},
@@ -578,7 +581,16 @@ func runConcCase(c concCase) *core.Failure {
 
 func init() {
 	core.Register(&core.Check{
-		ID:    "C11",
+		ID: "C11",
+		Setup: func() {
+			b := c11Base()
+			for _, r := range c11Relations {
+				related(b, r)
+			}
+			for _, o := range c11Ops() {
+				o.run(b, noYield)
+			}
+		},
 		Level: "model_checking",
 		Rule: "(a) controlled cooperative scheduler: logical threads each run one operation on the same frame or on a frame sharing storage with it (slice, sorted copy, column copy); scheduling points are operation start, operation end and EVERY user callback invocation (filter predicate, apply fn0/fn1/fn2, aggregation function, eval function; the callback yields before it reads its arguments). " +
 			"All interleavings (no preemption bound) for every unordered pair and self-pair of 11 callback-bearing operations x 4 sharing relations and for each callback operation against each of 23 callback-free operations; three threads with preemption bound 2 (thorough 3). Oracle: every operation returns what it returns alone, the shared frame is unchanged, no panic; replay of a choice prefix must find the recorded number of enabled threads. states = schedules executed, transitions = scheduling points. " +
